@@ -154,4 +154,114 @@ def isInvOf (M a r : Int) : Bool :=
 def isQuotOf (M x y z : Int) : Bool :=
   0 ≤ z && z < M && (z * y) % M == (x * (Int.gcd y M : Int)) % M
 
+/-! ### Wave 3: associated constants, an independent spec for the inverse, histories that feed results back -/
+
+/-- `pub const ZERO: Self = Self { v: 0 }` -/
+def zero : Int := 0
+/-- `pub const ONE: Self = Self { v: 1 }` -/
+def one : Int := 1
+/-- `pub fn md() -> u32 { M }` -/
+def md (M : Int) : Int := M
+
+/-- Bézout coefficients by the textbook recursion over unbounded naturals (a different algorithm
+    from the iterative `i32` loop of `inv`): `a·x + b·y = gcd(a, b)` for `(x, y) = bez a b`. -/
+def bez (a b : Nat) : Int × Int :=
+  if _h : a = 0 then (0, 1)
+  else
+    let p := bez (b % a) a
+    (p.2 - (b / a : Nat) * p.1, p.1)
+termination_by a
+decreasing_by exact Nat.mod_lt _ (by omega)
+
+/-- executable spec of the inverse: the canonical representative of the Bézout coefficient -/
+def specInv (M a : Int) : Int := red M (bez a.toNat M.toNat).1
+
+/-- One step of a history on an accumulator `acc : Modular<M>` (the harness keeps ONE live value and
+    feeds every result back into the next operation; `v` is an `i64` constructor argument). -/
+inductive Op where
+  | add (v : Int)      -- acc = acc + new(v)          (also `+=`)
+  | sub (v : Int)      -- acc = acc - new(v)
+  | rsub (v : Int)     -- acc = new(v) - acc
+  | mul (v : Int)      -- acc = acc * new(v)
+  | div (v : Int)      -- acc = acc / new(v)          (domain: gcd(v, M) = 1)
+  | rdiv (v : Int)     -- acc = new(v) / acc          (domain: gcd(acc, M) = 1)
+  | neg                -- acc = -acc
+  | inv                -- acc = acc.inv()             (domain: gcd(acc, M) = 1)
+  | pow (d : Nat)      -- acc = acc.pow(d)
+  | sq                 -- acc = acc * acc             (the same object on both sides; `acc *= acc`)
+  | dbl                -- acc = acc + acc
+  | selfsub            -- acc = acc - acc
+  | selfdiv            -- acc = acc / acc             (domain: gcd(acc, M) = 1)
+  | ident              -- clone / clone_from / Copy / containers / Writer→Reader round trip: the value is unchanged
+  | renew              -- acc = new(acc.inner() as i64)
+  | zero               -- acc = ZERO
+  | one                -- acc = ONE
+  | eqv (v : Int)      -- acc = acc + (if acc == new(v) { ONE } else { ZERO })
+
+/-- the model's step (every machine check of the called functions included) -/
+def Op.stepM (M acc : Int) : Op → Except Panic Int
+  | .add v => do let y ← new M v; Mint.add M acc y
+  | .sub v => do let y ← new M v; Mint.sub M acc y
+  | .rsub v => do let y ← new M v; Mint.sub M y acc
+  | .mul v => do let y ← new M v; Mint.mul M acc y
+  | .div v => do let y ← new M v; Mint.div M acc y
+  | .rdiv v => do let y ← new M v; Mint.div M y acc
+  | .neg => Mint.neg M acc
+  | .inv => Mint.inv M acc
+  | .pow d => Mint.pow M acc d
+  | .sq => Mint.mul M acc acc
+  | .dbl => Mint.add M acc acc
+  | .selfsub => Mint.sub M acc acc
+  | .selfdiv => Mint.div M acc acc
+  | .ident => .ok acc
+  | .renew => new M acc
+  | .zero => .ok Mint.zero
+  | .one => .ok Mint.one
+  | .eqv v => do let y ← new M v; Mint.add M acc (if eq acc y then Mint.one else Mint.zero)
+
+/-- the spec's step: plain integer arithmetic followed by one reduction -/
+def Op.stepS (M acc : Int) : Op → Int
+  | .add v => red M (acc + v)
+  | .sub v => red M (acc - v)
+  | .rsub v => red M (v - acc)
+  | .mul v => red M (acc * v)
+  | .div v => red M (acc * specInv M (red M v))
+  | .rdiv v => red M (v * specInv M acc)
+  | .neg => red M (-acc)
+  | .inv => specInv M acc
+  | .pow d => specPow M acc d
+  | .sq => red M (acc * acc)
+  | .dbl => red M (acc + acc)
+  | .selfsub => 0
+  | .selfdiv => red M (acc * specInv M acc)
+  | .ident => acc
+  | .renew => red M acc
+  | .zero => 0
+  | .one => red M 1
+  | .eqv v => red M (acc + (if acc = red M v then 1 else 0))
+
+/-- the step lies in the property's domain (inverses only of values coprime to `M`) -/
+def Op.dom (M acc : Int) : Op → Bool
+  | .div v => Int.gcd (red M v) M == 1
+  | .rdiv _ => Int.gcd acc M == 1
+  | .inv => Int.gcd acc M == 1
+  | .selfdiv => Int.gcd acc M == 1
+  | _ => true
+
+/-- the model's history: the accumulator after every step; stops at the first panic -/
+def runM (M : Int) : Int → List Op → List (Except Panic Int)
+  | _, [] => []
+  | acc, op :: ops =>
+    match op.stepM M acc with
+    | .ok a => .ok a :: runM M a ops
+    | .error e => [.error e]
+
+def runS (M : Int) : Int → List Op → List Int
+  | _, [] => []
+  | acc, op :: ops => op.stepS M acc :: runS M (op.stepS M acc) ops
+
+def domS (M : Int) : Int → List Op → Bool
+  | _, [] => true
+  | acc, op :: ops => op.dom M acc && domS M (op.stepS M acc) ops
+
 end Rlib.Mint
